@@ -556,6 +556,13 @@ class Sim:
     # block kinds in which the main thread of a program that does NOT wait
     # in time.sleep() can be reached by a simulated Ctrl-C
     _WAITS = ("join", "event", "cond", "get", "sem", "lock")
+    # Delivery in those waits (and the bpo-45274 model in _sim_join) was
+    # built in round j and WITHDRAWN after the third review (DESIGN §18): a
+    # pending Ctrl-C could then land inside start_all() or inside the
+    # program's own shutdown sequence - places where the pinned tree is
+    # never interrupted either.  The simulated Ctrl-C is delivered in the
+    # program's own time.sleep() only.
+    CTRL_C_IN_WAITS = False
 
     def _sig_payload(self, exc):
         import signal as _signal
@@ -582,7 +589,7 @@ class Sim:
             return
         me.slept = True
         if self.sleep_interrupt is not None and self.sleep_interrupt[0] is me:
-            me.pending_exc = self.sleep_interrupt[1]
+            me.pending_exc = self._sig_payload(self.sleep_interrupt[1])
             self.sleep_interrupt = None
             self.note("interrupt.delivered", "at-sleep-entry")
             self._run_pending(me)      # raises, or runs the handler
@@ -613,11 +620,13 @@ class Sim:
     def interrupt(self, st, exc):
         """Deliver `exc` to simulated thread `st` while it sleeps: now if it
         is sleeping, else on entry to its next sleep()."""
-        exc = self._sig_payload(exc)
+        # (which action the signal takes - default or an installed handler -
+        # is decided when it is DELIVERED, not when it is requested)
         if st.state == BLOCKED and (
                 st.block_kind in ("sleep", "ext")
-                or (st.block_kind in self._WAITS and not st.slept)):
-            st.pending_exc = exc
+                or (self.CTRL_C_IN_WAITS and st.block_kind in self._WAITS
+                    and not st.slept)):
+            st.pending_exc = self._sig_payload(exc)
             self.note("interrupt.delivered", "during-" + (
                 "sleep" if st.block_kind in ("sleep", "ext")
                 else st.block_kind))
@@ -748,11 +757,12 @@ def _sim_join(self, timeout=None):
             sim.note("join.bpo45274", st.role)
             sim.count("join_interrupted_marks_thread_stopped")
 
-    if me is not None and not me.slept and sim.sleep_interrupt is not None \
+    if sim.CTRL_C_IN_WAITS and me is not None and not me.slept \
+            and sim.sleep_interrupt is not None \
             and sim.sleep_interrupt[0] is me:
         # a program that waits by joining (never slept): a pending Ctrl-C
         # lands here
-        me.pending_exc = sim.sleep_interrupt[1]
+        me.pending_exc = sim._sig_payload(sim.sleep_interrupt[1])
         sim.sleep_interrupt = None
         sim.note("interrupt.delivered", "at-join-entry")
         try:
